@@ -829,8 +829,11 @@ package go_clipper2
 //@   panicfree
 
 //@ func ClipperOffset.getPerpendicD
-//@   props C03
+//@   props C03 C05 C10
 //@   panicfree
+//@   inline
+//@   requires absI(pt.X) <= pow2(52) && absI(pt.Y) <= pow2(52)
+//@   ensures [the-point-moved-along-the-normal-by-the-group-delta] result.X == toReal(pt.X) + norm.X*co.groupDelta && result.Y == toReal(pt.Y) + norm.Y*co.groupDelta
 
 // Offset join construction: every index expression in range when there is one normal per vertex.
 // The variable-delta callback receives pointers to the path and the normals and could resize them;
@@ -977,8 +980,10 @@ package go_clipper2
 //@   panicfree
 
 //@ func NewVertex
-//@   props C03
+//@   props C03 C12
 //@   panicfree
+//@   inline
+//@   ensures [a-new-vertex] fresh(result) && result.pt == pt && result.flags == flags && result.prev == prev && result.next == nil
 
 //@ func Point64.Add
 //@   props C03
@@ -1138,8 +1143,10 @@ package go_clipper2
 //@   panicfree
 
 //@ func VertexPoolList.Add
-//@   props C03
+//@   props C03 C12 C01 C17 C19
 //@   panicfree
+//@   inline
+//@   ensures [every-vertex-is-a-new-object-appended-to-the-pool] fresh(result) && result.pt == pt && result.flags == flags && result.prev == prev && result.next == nil && len(*vpl) == old(len(*vpl)) + 1 && (*vpl)[len(*vpl)-1] == result && forall(k, 0, old(len(*vpl)), (*vpl)[k] == old((*vpl)[k]))
 
 //@ func VertexPoolList.EnsureCapacity
 //@   props C03
@@ -1489,6 +1496,7 @@ package go_clipper2
 //@   ensures [closed-no-closing-duplicate] (isClosedPath && len(result) >= 2) ==> result[len(result)-1] != result[0]
 //@   ensures [members] forall(k, 0, len(result), memberOf(result[k], path))
 //@   ensures [first-kept] (len(path) > 0 && len(result) > 0) ==> result[0] == path[0]
+//@   ensures [a-path-with-points-keeps-at-least-one] len(path) > 0 ==> len(result) >= 1
 //@   ensures [open-last-kept] (!isClosedPath && len(path) > 0) ==> (len(result) >= 1 && result[len(result)-1] == path[len(path)-1])
 
 //@ spec onLineD(p, a, b PointD) bool = (p.Y - a.Y)*(b.X - a.X) == (b.Y - a.Y)*(p.X - a.X)
@@ -1511,6 +1519,11 @@ package go_clipper2
 //@   ensures [perpendicular] result.X * toReal(pt2.X - pt1.X) + result.Y * toReal(pt2.Y - pt1.Y) == 0
 //@   ensures [unit] pt1 != pt2 ==> result.X*result.X + result.Y*result.Y == 1
 //@   ensures [right-hand] pt1 != pt2 ==> result.X * toReal(pt2.Y - pt1.Y) - result.Y * toReal(pt2.X - pt1.X) > 0
+
+//@ func getUnitNormal variant maxcoord
+//@   props C13 C05
+//@   budget 3
+//@   requires dom(pt1, 61) && dom(pt2, 61)
 
 //@ func ClipperOffset.buildNormals
 //@   props C05 C10 C03
@@ -1806,6 +1819,12 @@ package go_clipper2
 //@   requires rectPath[0].X == rectPath[3].X && rectPath[1].X == rectPath[2].X && rectPath[0].Y == rectPath[1].Y && rectPath[2].Y == rectPath[3].Y
 //@   ensures [loc-is-a-side-when-found] result1 ==> sideLoc(*loc)
 //@   ensures [loc-kept-when-not-found] !result1 ==> *loc == old(*loc)
+//@   assert after return#1 [from-the-left-zone-the-top-edge-is-tried-only-above-the-rectangle] p.Y < rectPath[0].Y
+//@   assert after return#5 [from-the-right-zone-the-top-edge-is-tried-only-above-the-rectangle] p.Y < rectPath[0].Y
+//@   assert after return#9 [from-the-top-zone-the-left-edge-is-tried-only-left-of-the-rectangle] p.X < rectPath[0].X
+//@   assert after return#10 [from-the-top-zone-the-search-stops-without-the-right-edge-only-when-the-point-is-not-right-of-the-rectangle] p.X <= rectPath[1].X
+//@   assert after return#14 [from-the-bottom-zone-the-left-edge-is-tried-only-left-of-the-rectangle] p.X < rectPath[3].X
+//@   assert after return#15 [from-the-bottom-zone-the-search-stops-without-the-right-edge-only-when-the-point-is-not-right-of-the-rectangle] p.X <= rectPath[2].X
 
 //@ func RectClip64.add
 //@   props C06 C11 C03
@@ -2856,3 +2875,17 @@ package go_clipper2
 //@   props C06 C03
 //@   nosafety
 //@   ensures [the-point-is-on-no-edge-list-afterwards] isnil(op.edge)
+
+// the precision-range panic of the boolean wrappers (C07): raised exactly for a precision outside [-8, 8] (0 means
+// the default), whatever the paths are - in particular also for a nil subject
+//@ func BooleanOpPathsD variant precision
+//@   props C07 C03
+//@   nosafety
+//@   opaque clipperD.AddPaths clipperD.Execute
+//@   panics precOf(precisionV) != 0 && (precOf(precisionV) < -8 || precOf(precisionV) > 8)
+
+//@ func BooleanOpPolyTreeD variant precision
+//@   props C07 C03
+//@   nosafety
+//@   opaque clipperD.AddPaths clipperD.ExecutePolyTreeD
+//@   panics precOf(precisionV) != 0 && (precOf(precisionV) < -8 || precOf(precisionV) > 8)
